@@ -12,7 +12,12 @@ def run_one(name, text, keep=True):
     sp = os.path.join(TRACES, name + '.scn')
     tp = os.path.join(TRACES, name + '.trace')
     open(sp, 'w').write(text)
-    rc, out = core.run([core.BSH, 'proto', sp], timeout=120)
+    for attempt in range(3):
+        rc, out = core.run([core.BSH, 'proto', sp], timeout=180)
+        if rc == 0 and 'DONE' in out:
+            break
+        # a port picked as free may have been taken by a parallel child before it was bound
+        # (UdpSocket::bind(...).unwrap() in create_server/create_client): run it again
     open(tp, 'w').write(out)
     res = dict(name=name, scenario=sp, trace_path=tp, trace=out, diffs=[], frames=0, left=0, ok=True)
     if rc != 0 or 'DONE' not in out:
